@@ -18,3 +18,21 @@ template class FEAT::Geometry::StandardRefinery<MeshPart<ConformalMesh<Shape::Hy
 template class FEAT::Geometry::StandardRefinery<MeshPart<ConformalMesh<Shape::Simplex<1>, 1, double>>>;
 template class FEAT::Geometry::StandardRefinery<MeshPart<ConformalMesh<Shape::Simplex<2>, 2, double>>>;
 template class FEAT::Geometry::StandardRefinery<MeshPart<ConformalMesh<Shape::Simplex<3>, 3, double>>>;
+
+// references (no logic) to the face counts and refinement counts of all shapes, so that the
+// constants appear as resolved declarations in the fact base
+template<typename Shape_, int dim_>
+int c10_counts()
+{
+  return Shape::FaceTraits<Shape_, dim_>::count + Intern::StandardRefinementTraits<Shape_, dim_>::count;
+}
+int c10_all_counts()
+{
+  return c10_counts<Shape::Vertex, 0>()
+    + c10_counts<Shape::Hypercube<1>, 0>() + c10_counts<Shape::Hypercube<1>, 1>()
+    + c10_counts<Shape::Hypercube<2>, 0>() + c10_counts<Shape::Hypercube<2>, 1>() + c10_counts<Shape::Hypercube<2>, 2>()
+    + c10_counts<Shape::Hypercube<3>, 0>() + c10_counts<Shape::Hypercube<3>, 1>() + c10_counts<Shape::Hypercube<3>, 2>() + c10_counts<Shape::Hypercube<3>, 3>()
+    + c10_counts<Shape::Simplex<1>, 0>() + c10_counts<Shape::Simplex<1>, 1>()
+    + c10_counts<Shape::Simplex<2>, 0>() + c10_counts<Shape::Simplex<2>, 1>() + c10_counts<Shape::Simplex<2>, 2>()
+    + c10_counts<Shape::Simplex<3>, 0>() + c10_counts<Shape::Simplex<3>, 1>() + c10_counts<Shape::Simplex<3>, 2>() + c10_counts<Shape::Simplex<3>, 3>();
+}
